@@ -133,23 +133,26 @@ def gen_doc(rng, rich=True, nets=1):
 
 def gen_ops(ck):
     rng = ck.rng
-    nf = ck.n(14, "all")  # fault indices per op in the quick tier (spread over the trace), all of them in thorough
+    nf = ck.n(24, "all")  # fault indices per op in the quick tier (spread over the trace), all of them in thorough
     ops = []
     # --- stored witnesses first (DESIGN.md section 7): a network with an explicit input / a component that cannot
     #     be exported, written to HDF5
     d_exp = {"id": "w1", "iaf": 1, "pg": 1, "networks": [{"id": "n", "pops": [{"id": "p0", "size": 2}], "explicit_inputs": 1}]}
     d_bad = {"id": "w2", "iaf": 1, "bad_component": True, "networks": [{"id": "n", "pops": [{"id": "p0", "size": 2}]}]}
     d_syn = {"id": "w3", "iaf": 1, "syn": 1, "networks": [{"id": "n", "pops": [{"id": "p0", "size": 2}], "synaptic_connections": 1}]}
-    ops.append({"op": "h5_write_embed", "doc": d_exp, "faults": []})
-    ops.append({"op": "h5_write_embed", "doc": d_bad, "faults": []})
-    ops.append({"op": "h5_write_noembed", "doc": d_syn, "faults": []})
-    ops.append({"op": "xml_write_path", "doc": d_bad, "faults": []})
-    ops.append({"op": "xml_write_handle", "doc": d_bad, "faults": []})
-    ops.append({"op": "h5_write_embed", "doc": gen_doc(rng, nets=2), "faults": []})  # two networks: the HDF5 layout cannot hold them
+    ops.append({"op": "h5_write_embed", "doc": d_exp, "faults": [], "must_raise": True})
+    ops.append({"op": "h5_write_noembed", "doc": d_exp, "faults": [], "must_raise": True})
+    ops.append({"op": "h5_write_embed", "doc": d_bad, "faults": [], "must_raise": True})
+    ops.append({"op": "h5_write_noembed", "doc": d_syn, "faults": [], "must_raise": True})
+    ops.append({"op": "h5_write_embed", "doc": d_syn, "faults": [], "must_raise": True})
+    ops.append({"op": "xml_write_path", "doc": d_bad, "faults": [], "must_raise": True})
+    ops.append({"op": "xml_write_handle", "doc": d_bad, "faults": [], "must_raise": True})
+    # two networks: the HDF5 layout (one group "network") cannot hold them
+    ops.append({"op": "h5_write_embed", "doc": gen_doc(rng, nets=2), "faults": [], "must_raise": True})
     # the known finding: default ids are written into the caller's document
     ops.append({"op": "am_write_doc", "doc": {"id": "a0", "am_cells": [{"id": None, "n": 3, "mid": None}]}, "faults": nf})
     # --- generated
-    for i in range(ck.n(2, 6)):
+    for i in range(ck.n(3, 14)):
         d = gen_doc(rng)
         ops.append({"op": "h5_write_embed", "doc": d, "faults": nf})
         ops.append({"op": "h5_write_noembed", "doc": d, "faults": nf})
@@ -158,13 +161,13 @@ def gen_ops(ck):
         ops.append({"op": rng.choice(["h5_parse", "h5_parse_opt"]), "doc": dict(d, embed=rng.random() < 0.7), "faults": nf})
         ops.append({"op": rng.choice(["h5_load", "h5_load_opt"]), "doc": dict(d, embed=True), "faults": nf})
         ops.append({"op": "file_h5", "doc": dict(d, embed=True), "faults": ck.n(6, 30)})
-    for i in range(ck.n(1, 3)):
+    for i in range(ck.n(1, 6)):
         d = gen_doc(rng, rich=False)
         ops.append({"op": "xml_load", "doc": d, "faults": "all"})
         ops.append({"op": "file_xml", "doc": d, "faults": "all"})
         ops.append({"op": "file_xml_inc", "doc": dict(d, includes=["inc_a.nml", "inc_b.nml"]), "faults": "all"})
         ops.append({"op": "string_xml", "doc": d, "faults": "all"})
-    for i in range(ck.n(1, 3)):
+    for i in range(ck.n(1, 6)):
         n = rng.randrange(2, 6)
         ops.append({"op": "am_write_morph", "doc": {"n": n, "mid": rng.choice([None, "m%d" % i])}, "faults": "all"})
         cells = [{"id": "c%d" % j, "n": rng.randrange(2, 5), "mid": "m%d" % j} for j in range(rng.randrange(1, 3))]
@@ -316,7 +319,7 @@ def run(ck):
         ck.compile_obligations(gp, kind="theorem")
     # ---------------------------------------------------------------- real runs
     ops = gen_ops(ck)
-    trunc = [{"doc": gen_doc(ck.rng, rich=False), "offsets": ck.n(11, "all")} for _ in range(ck.n(1, 3))]
+    trunc = [{"doc": gen_doc(ck.rng, rich=False), "offsets": ck.n(11, "all")} for _ in range(ck.n(1, 6))]
     res = run_impl(ck, ops, trunc)
     cases = []  # (coq text, python description)
     for o in res["ops"]:
@@ -359,6 +362,9 @@ def run(ck):
                 prob.append(("failure-swallowed", "the call returned normally although %s raised" % fired))
             if fired and r["raised"] and r.get("retry_ok") is False:
                 prob.append(("retry-fails", r.get("retry_err", "")))
+            if what == "dry" and o.get("must_raise") and not r["raised"]:
+                prob.append(("unholdable-construct-not-refused", "the document holds a construct this format cannot hold, "
+                             "and the call returned normally"))
             if not (fired or natural) and (r["leaked"] or r["doc_changed"]):
                 prob.append(("successful-call-not-clean", "left open %s, doc changed %s" % (r["leaked"], r["doc_changed"])))
             for cls, detail in prob:
@@ -451,7 +457,7 @@ def run(ck):
 def replay(ck, data):
     inp = data.get("input") or {}
     if "op" in inp:
-        spec = {"op": inp["op"], "doc": inp.get("doc", {}), "kinds": [inp.get("kind") or "OSError"],
+        spec = {"op": inp["op"], "doc": inp.get("doc", {}), "kinds": [inp.get("kind") or "OSError"], "must_raise": True,
                 "faults": [inp["fault_at_call"]] if inp.get("fault_at_call") is not None else []}
         res = ck.impl("c08_impl.py", {"ops": [spec]})
         o = res["ops"][0]
@@ -459,7 +465,12 @@ def replay(ck, data):
         for r in recs:
             r.pop("trace", None)
         print(json.dumps({"stored": {"input": inp, "observed": data.get("observed")}, "now": recs}, indent=1)[:6000])
-        bad = any(r and (r.get("leaked") or r.get("doc_changed") or r.get("retry_ok") is False) for r in recs)
+        bad = any(r and (r.get("leaked") or r.get("doc_changed") or r.get("retry_ok") is False
+                         or r.get("caller_handle_closed")) for r in recs)
+        if str(data.get("key", "")).endswith("unholdable-construct-not-refused"):
+            bad = bad or not recs[0].get("raised")
+        if str(data.get("key", "")).endswith("failure-swallowed"):
+            bad = bad or any(r.get("fired") and not r.get("raised") for r in recs)
         return 1 if bad else 0
     if "offset" in inp:
         res = ck.impl("c08_impl.py", {"truncate": [{"doc": inp["doc"], "offsets": "all"}]})
